@@ -15,7 +15,7 @@ use tokio::{
     io::{AsyncWriteExt, BufWriter},
     sync::mpsc::{channel, Receiver, Sender},
 };
-use tracing::info;
+use tracing::{info, warn};
 
 #[cfg(unix)]
 use tokio::signal::unix::{signal, SignalKind};
@@ -133,7 +133,15 @@ async fn log_thread(
     loop {
         let e = rx.recv().await.ok_or_else(|| err_msg("dequeue"))?;
         if let Some(e) = e {
-            let mut line = format.to_string(e).context("deserializer error")?;
+            // a format that fails for one record (e.g. a division by zero in the log script) must not end
+            // the writer task: its error would abort the whole process
+            let mut line = match format.to_string(e) {
+                Ok(line) => line,
+                Err(e) => {
+                    warn!("access log format error: {} cause: {:?}", e, e.cause);
+                    continue;
+                }
+            };
             line += "\r\n";
             stream
                 .write(line.as_bytes())
